@@ -27,6 +27,12 @@ from easynetwork.servers.async_tcp import AsyncTCPNetworkServer
 from easynetwork.servers.async_udp import AsyncUDPNetworkServer
 from easynetwork.servers.handlers import AsyncDatagramRequestHandler, AsyncStreamRequestHandler
 
+import easynetwork.clients.tcp  # noqa: F401  (everything the threaded harnesses import lazily is imported here: with line-level
+import easynetwork.clients.udp  # noqa: F401   pre-emption a module body executed inside a run would be traced in the first run
+import easynetwork.lowlevel.api_async.backend._asyncio.threads  # noqa: F401   of a process only -> different choices)
+import easynetwork.servers.standalone_tcp  # noqa: F401
+import easynetwork.servers.standalone_udp  # noqa: F401
+import easynetwork.servers.threads_helper  # noqa: F401
 from models import lifecycle as L
 from vsim.backend import SimAsyncIOBackend, sim_sockets
 from vsim.harness import Peer, swarm_selector, sync_engine
@@ -129,6 +135,11 @@ class LifecycleRecorder:
         self._live()
         self.world.log("handler", "srv", what)
         self._guard(self.model.observe_handler)
+
+    def not_stopped(self, what: str) -> None:
+        self._live()
+        self.world.log("evidence", "srv", what)
+        self._guard(self.model.observe_not_stopped, what)
 
     def _live(self) -> None:
         sched = self.sched
@@ -528,8 +539,15 @@ class _RecordedServer:
         self._srv = srv
         self._actor_of = actor_of
 
+    def _evidence(self) -> None:
+        """a standalone server owns listener sockets only between the set-up and the tear-down of ONE serve_forever call"""
+        run = self._run
+        if any(not s.sim_closed for s in run.server_sockets()):
+            run.rec.not_stopped("listener-open")
+
     def serve_forever(self, *, is_up_event: Any = None, **kw: Any) -> None:
         run, rec, actor = self._run, self._run.rec, self._actor_of()
+        self._evidence()
         opid = rec.invoke(actor, L.SERVE)
         run.current[actor] = f"serve_forever#{opid}"
 
@@ -555,6 +573,7 @@ class _RecordedServer:
 
     def shutdown(self, timeout: float | None = None) -> None:
         run, rec, actor = self._run, self._run.rec, self._actor_of()
+        self._evidence()
         opid = rec.invoke(actor, L.SHUTDOWN)
         run.current[actor] = f"shutdown#{opid}"
         t0 = run.world.now
@@ -582,6 +601,7 @@ class _RecordedServer:
 
     def server_close(self) -> None:
         run, rec, actor = self._run, self._run.rec, self._actor_of()
+        self._evidence()
         opid = rec.invoke(actor, L.CLOSE)
         run.current[actor] = f"server_close#{opid}"
         try:
@@ -601,6 +621,7 @@ class _RecordedServer:
 
     def is_serving(self) -> bool:
         run, rec, actor = self._run, self._run.rec, self._actor_of()
+        self._evidence()
         opid = rec.invoke(actor, L.IS_SERVING)
         run.current[actor] = f"is_serving#{opid}"
         value = bool(self._srv.is_serving())
